@@ -54,6 +54,8 @@ class NotOrMacro(Macro):
         prevs is the negative disjunction
         """
         goal, pt0 = args[0], prevs[0]
+        if len(args) != 1 or not goal.is_not() or not pt0.prop.is_not():
+            raise VeriTException("not_or", "unexpected form of premise or goal")
         disjs = pt0.prop.arg.strip_disj()
         for d in disjs:
             if d == goal.arg:
@@ -84,8 +86,12 @@ class NotAndMacro(Macro):
 
     def eval(self, args, prevs):
         goal, pt0 = Or(*args), prevs[0]
+        if not pt0.prop.is_not():
+            raise VeriTException("not_and", "premise is not a negation")
         conj_atoms = pt0.prop.arg.strip_conj()
         disj_atoms = goal.strip_disj()
+        if len(conj_atoms) != len(disj_atoms):
+            raise VeriTException("not_and", "unexpected goal: %s" % goal)
         for i, j in zip(conj_atoms, disj_atoms):
             if Not(i) != j:
                 raise VeriTException("not_and", "unexpected goal: %s" % goal)
@@ -109,7 +115,8 @@ class NotNotMacro(Macro):
 
     def eval(self, args, prevs=None):
         neg_arg, pos_arg = args
-        if neg_arg.arg.arg.arg == pos_arg:
+        if neg_arg.is_not() and neg_arg.arg.is_not() and neg_arg.arg.arg.is_not() and \
+           neg_arg.arg.arg.arg == pos_arg:
             return Thm(Or(neg_arg, pos_arg))
         else:
             raise VeriTException("not_not", "unexpected goal: %s" % Or(*args))
@@ -490,7 +497,7 @@ class VeritImpliesMacro(Macro):
         # goal : ~a | b  pt: |- a --> b
         goal = Or(*args)
         pt = prevs[0]
-        if Or(Not(pt.prop.arg1), pt.prop.arg) == goal:
+        if pt.prop.is_implies() and Or(Not(pt.prop.arg1), pt.prop.arg) == goal:
             return Thm(goal, pt.hyps)
         else:
             raise VeriTException("implies", "unexpected goal %s" % goal)
@@ -509,6 +516,8 @@ class VeriTAndPos(Macro):
     def eval(self, args, prevs=None):
         # args: ~(p1 & p2 & ... & pn) and pk
         neg_conj, pk = args
+        if not neg_conj.is_not():
+            raise VeriTException("and_pos", "first literal is not a negation")
         conjs = neg_conj.arg.strip_conj()
         if pk in conjs:
             return Thm(Or(neg_conj, pk))
@@ -537,6 +546,8 @@ class VeriTOrPos(Macro):
 
     def eval(self, args, prevs=None):
         neg_disj = args[0]
+        if not neg_disj.is_not():
+            raise VeriTException("or_pos", "first literal is not a negation")
         disjs = neg_disj.arg.strip_disj()
         for a, b in zip(disjs, args[1:]):
             if a != b:
@@ -564,6 +575,8 @@ class VeriTNotEquiv1(Macro):
     def eval(self, args, prevs):
         pt = prevs[0]
         p1, p2 = args
+        if not (pt.prop.is_not() and pt.prop.arg.is_equals()):
+            raise VeriTException("not_equiv1", "premise is not a negated equivalence")
         pt_p1, pt_p2 = pt.prop.arg.arg1, pt.prop.arg.arg
         if p1 == pt_p1 and p2 == pt_p2:
             return Thm(Or(p1, p2), pt.hyps)
@@ -589,6 +602,8 @@ class VeriTNotEquiv1(Macro):
     def eval(self, args, prevs):
         pt = prevs[0]
         p1, p2 = args
+        if not (pt.prop.is_not() and pt.prop.arg.is_equals() and p1.is_not() and p2.is_not()):
+            raise VeriTException("not_equiv2", "premise is not a negated equivalence")
         pt_p1, pt_p2 = pt.prop.arg.arg1, pt.prop.arg.arg
         if p1.arg == pt_p1 and p2.arg == pt_p2:
             return Thm(Or(p1, p2), pt.hyps)
@@ -614,6 +629,8 @@ class Equiv1Macro(Macro):
     
     def eval(self, args, prevs):
         pt = prevs[0]
+        if not pt.prop.is_equals() or len(args) != 2:
+            raise VeriTException("equiv1", "premise is not an equivalence")
         p1, p2 = pt.prop.args
         if Not(p1) == args[0] and p2 == args[1]:
             return Thm(Or(*args), pt.hyps)
@@ -637,6 +654,8 @@ class Equiv1Macro(Macro):
     
     def eval(self, args, prevs):
         pt = prevs[0]
+        if not pt.prop.is_equals() or len(args) != 2:
+            raise VeriTException("equiv2", "premise is not an equivalence")
         p1, p2 = pt.prop.args
         if p1 == args[0] and Not(p2) == args[1]:
             return Thm(Or(*args), pt.hyps)
@@ -832,6 +851,8 @@ class EquivPos1(Macro):
 
     def eval(self, args, prevs=None):
         arg1, arg2, arg3 = args
+        if not (arg1.is_not() and arg1.arg.is_equals()):
+            raise VeriTException("equiv_pos1", "first literal is not a negated equivalence")
         eq_tm = arg1.arg
         if eq_tm.arg1 == arg2 and Not(eq_tm.arg) == arg3:
             return Thm(Or(*args))
@@ -851,6 +872,8 @@ class EquivPos2(Macro):
 
     def eval(self, args, prevs=None):
         arg1, arg2, arg3 = args
+        if not (arg1.is_not() and arg1.arg.is_equals()):
+            raise VeriTException("equiv_pos2", "first literal is not a negated equivalence")
         eq_tm = arg1.arg
         if Not(eq_tm.arg1) == arg2 and eq_tm.arg == arg3:
             return Thm(Or(*args))
@@ -1190,13 +1213,14 @@ class EqSimplifyMacro(Macro):
         if lhs.is_equals():
             if lhs.lhs == lhs.rhs and rhs == true:
                 return Thm(arg)
-            elif lhs.lhs != lhs.rhs and rhs == false:
+            elif lhs.lhs.is_constant() and lhs.rhs.is_constant() and rhs == false and \
+                 eval_hol_number(lhs.lhs) != eval_hol_number(lhs.rhs):
                 return Thm(arg)
             else:
                 raise VeriTException("eq_simplify", "rhs doesn't obey eq_simplify rule")
         elif lhs.is_not():
-            if not lhs.arg.is_equals() or lhs.arg.lhs == lhs.arg.rhs:
-                raise VeriTException("eq_simplify", "lhs should be an inequality.")
+            if not lhs.arg.is_equals() or lhs.arg.lhs != lhs.arg.rhs:
+                raise VeriTException("eq_simplify", "lhs should be the negation of t = t.")
             if rhs == false:
                 return Thm(arg)
             else:
@@ -1824,6 +1848,8 @@ class ITEIntroMacro(Macro):
         for t in ites:
             P, x, y = t.args
             ite_intros.append(logic.mk_if(P, Eq(x, t), Eq(y, t)))
+        if not compare_sym_tm(lhs, rhs.strip_conj()[0]):
+            raise VeriTException("ite_intro", "right side does not start with the left side")
         expected_ites = rhs.strip_conj()[1:]
 
         # Sometimes the expected result has fewer conjuncts
@@ -1981,6 +2007,8 @@ class AndNegMacro(Macro):
 
     def eval(self, args, prevs=None):
         conj = args[0]
+        if not conj.is_conj():
+            raise VeriTException("and_neg", "first literal is not a conjunction")
         neg_disjs = args[1:]
         expected_conj = []
         while conj.is_conj():
@@ -1989,6 +2017,9 @@ class AndNegMacro(Macro):
                 expected_conj.append(Not(conj.arg))
                 break
             conj = conj.arg
+        else:
+            # the negation of the last conjunct is needed as well
+            expected_conj.append(Not(conj))
         if neg_disjs != tuple(expected_conj):
             raise VeriTException("and_neg", "Unexpected goal")
         return Thm(Or(*args))
